@@ -13,6 +13,10 @@ import (
 // ErrOverflow is returned when the declared data length is exceeded.
 var ErrOverflow = errors.New("objfile: declared data length exceeded (overflow)")
 
+// ErrShortObject is returned by Close when fewer bytes were written than the
+// header declared: the result is not a complete object and must not be used.
+var ErrShortObject = errors.New("objfile: fewer bytes written than declared in the header")
+
 // Writer writes and encodes data in compressed objfile format to a provided
 // io.Writer. Close should be called when finished with the Writer. Close will
 // not close the underlying io.Writer.
@@ -130,5 +134,9 @@ func (w *Writer) Close() error {
 	}
 
 	w.closed = true
+	if w.pending != 0 {
+		w.closeErr = ErrShortObject
+		return w.closeErr
+	}
 	return nil
 }
